@@ -528,10 +528,12 @@ func NewNumOracle(lit string) (*NumOracle, error) {
 
 // Discrepancy kinds returned by the Check* methods ("" = accepted).
 const (
-	WrongValue    = "wrong-value"     // an int64 / float64 that is not the literal's value / nearest float64
-	WrongValueULP = "wrong-value:ulp" // a float64 within 4 ulps of, but not, the nearest float64
-	WrongKind     = "wrong-kind"      // right value, but a plain in-range integer did not come back as int64
-	LostDigits    = "lost-digits"     // number text that denotes a different number (or no number)
+	WrongValue          = "wrong-value"           // an int64 that is not the literal's value, or a float64 far from it
+	WrongValueInexact   = "wrong-value:inexact"   // a finite float64 close to (within 2^22 representable values of) but not the nearest float64
+	WrongValueNonFinite = "wrong-value:nonfinite" // ±Inf or NaN where the nearest float64 is finite
+	WrongKind           = "wrong-kind"            // right value, but a plain in-range integer did not come back as int64
+	LostDigits          = "lost-digits"           // number text that denotes a different number (or no number)
+	LostExpSign         = "lost-digits:exp-sign"  // number text that denotes the literal with its exponent's '-' dropped
 )
 
 // CheckInt judges an int64 result.
@@ -557,14 +559,26 @@ func (o *NumOracle) CheckFloat(f float64) string {
 		}
 		return ""
 	}
-	if !math.IsNaN(f) && !math.IsInf(f, 0) && !math.IsInf(o.F, 0) && (f < 0) == (o.F < 0) {
+	if math.IsNaN(f) || math.IsInf(f, 0) {
+		if math.IsInf(o.F, 0) {
+			return WrongValue // the infinity of the wrong sign
+		}
+		return WrongValueNonFinite
+	}
+	if !math.IsInf(o.F, 0) {
+		// distance counted in representable float64 values
 		a, b := math.Float64bits(math.Abs(f)), math.Float64bits(math.Abs(o.F))
-		d := a - b
-		if b > a {
+		var d uint64
+		switch {
+		case (f < 0) != (o.F < 0) && f != 0 && o.F != 0:
+			d = a + b
+		case a > b:
+			d = a - b
+		default:
 			d = b - a
 		}
-		if d <= 4 {
-			return WrongValueULP
+		if d <= 1<<22 {
+			return WrongValueInexact
 		}
 	}
 	return WrongValue
@@ -573,7 +587,17 @@ func (o *NumOracle) CheckFloat(f float64) string {
 // CheckText judges a json.Number / gen.Big / Number(string) result.
 func (o *NumOracle) CheckText(s string) string {
 	n, ok := Normalize(s)
-	if !ok || !n.Equal(o.N) {
+	if !ok {
+		return LostDigits
+	}
+	if !n.Equal(o.N) {
+		// the literal with the '-' of its exponent dropped?
+		j := strings.IndexAny(s, "eE")
+		if i := strings.IndexAny(o.Lit, "eE"); i >= 0 && i+1 < len(o.Lit) && o.Lit[i+1] == '-' && j >= 0 && !strings.HasPrefix(s[j+1:], "-") {
+			if alt, ok := Normalize(o.Lit[:i+1] + o.Lit[i+2:]); ok && alt.Equal(n) {
+				return LostExpSign
+			}
+		}
 		return LostDigits
 	}
 	if o.MustInt64 {
